@@ -86,29 +86,38 @@ struct Cyc {
                 Dense B(n, std::vector<Q>(n));
                 for (long j = 0; j < n; ++j) { std::vector<Q> e(n, Q(0)); e[j] = Q(1); std::vector<Q> c = apply(amg, e); for (long i = 0; i < n; ++i) B[i][j] = c[i]; l << c; }
                 if (symcfg && t.pre_cycles >= 1) {
-                    if (!is_sym(B)) r.fail("B is not symmetric");
-                    else if (!is_spd(B)) r.fail("B is not positive definite");
-                    else {
-                        // E = I - B A;  contraction certificate in the energy norm:  A - E^T A E  positive definite
-                        Dense Ad = dense(h.A); Dense E = dmul(B, Ad, n); for (long i = 0; i < n; ++i) for (long j = 0; j < n; ++j) E[i][j] = (i == j ? Q(1) : Q(0)) - E[i][j];
+                    Dense Ad = dense(h.A);
+                    // E = I - B A;  contraction certificate in the energy norm:  A - E^T A E  positive definite
+                    auto contracts = [&](const Dense &Bm) {
+                        Dense E = dmul(Bm, Ad, n); for (long i = 0; i < n; ++i) for (long j = 0; j < n; ++j) E[i][j] = (i == j ? Q(1) : Q(0)) - E[i][j];
                         Dense AE = dmul(Ad, E, n), Et = dtrans(E, n), EAE = dmul(Et, AE, n), D(n, std::vector<Q>(n));
                         for (long i = 0; i < n; ++i) for (long j = 0; j < n; ++j) D[i][j] = Ad[i][j] - EAE[i][j];
-                        if (!is_spd(D)) {
-                            // plain aggregation with over_interp > 1 (its default): is the over-interpolation the cause?  The same
-                            // input with over_interp = 1 (same aggregates: the strength test is scale invariant) must contract.
-                            bool overint = false;
-                            if (h.kind == 0 && !(h.s.v == Q(1).v) && nl >= 3) {
-                                Hdr h1 = h; h1.s = Q(1); auto prm1 = params(h1, rp, t); AMG amg1(*h1.A.crs(), prm1);
-                                Dense B1(n, std::vector<Q>(n));
-                                for (long j = 0; j < n; ++j) { std::vector<Q> e(n, Q(0)); e[j] = Q(1); std::vector<Q> c = apply(amg1, e); for (long i = 0; i < n; ++i) B1[i][j] = c[i]; }
-                                if (amgcl_verif::access::levels(amg1).size() == nl && is_sym(B1) && is_spd(B1)) {
-                                    Dense E1 = dmul(B1, Ad, n); for (long i = 0; i < n; ++i) for (long j = 0; j < n; ++j) E1[i][j] = (i == j ? Q(1) : Q(0)) - E1[i][j];
-                                    Dense AE1 = dmul(Ad, E1, n), E1t = dtrans(E1, n), EAE1 = dmul(E1t, AE1, n), D1(n, std::vector<Q>(n));
-                                    for (long i = 0; i < n; ++i) for (long j = 0; j < n; ++j) D1[i][j] = Ad[i][j] - EAE1[i][j];
-                                    overint = is_spd(D1);
-                                }
-                            }
-                            if (overint) { r.fail("over-interpolation: B is symmetric positive definite but the stationary iteration is not a contraction in the energy norm (A - E^T A E is not positive definite) for plain aggregation with over_interp > 1 on " + std::to_string(nl) + " levels; the same input with over_interp = 1 contracts"); r.tag("over_interp_not_contracting"); }
+                        return is_spd(D);
+                    };
+                    auto bmat_of = [&](const Hdr &hh, const Tail &tt, size_t &nlv) {
+                        auto prm1 = params(hh, rp, tt); AMG amg1(*hh.A.crs(), prm1); nlv = amgcl_verif::access::levels(amg1).size();
+                        Dense B1(n, std::vector<Q>(n));
+                        for (long j = 0; j < n; ++j) { std::vector<Q> e(n, Q(0)); e[j] = Q(1); std::vector<Q> c = apply(amg1, e); for (long i = 0; i < n; ++i) B1[i][j] = c[i]; }
+                        return B1;
+                    };
+                    // plain aggregation with over_interp > 1 (its default): is the over-interpolation the cause of a failing certificate?
+                    // The same input with over_interp = 1 (same aggregates: the strength test is scale invariant) must be SPD and contract.
+                    auto over1_ok = [&]() {
+                        if (!(h.kind == 0 && !(h.s.v == Q(1).v) && nl >= 3)) return false;
+                        Hdr h1 = h; h1.s = Q(1); size_t nl1 = 0; Dense B1 = bmat_of(h1, t, nl1);
+                        return nl1 == nl && is_sym(B1) && is_spd(B1) && contracts(B1);
+                    };
+                    if (!is_sym(B)) r.fail("B is not symmetric");
+                    else if (!is_spd(B)) {
+                        // pre_cycles >= 2: B = 2 B1 - B1 A B1 (two cycles) is indefinite as soon as the SINGLE cycle B1 (SPD) does not contract
+                        bool overint = false;
+                        if (t.pre_cycles >= 2 && over1_ok()) { Tail t1 = t; t1.pre_cycles = 1; size_t nl1 = 0; Dense Bs = bmat_of(h, t1, nl1); overint = nl1 == nl && is_sym(Bs) && is_spd(Bs) && !contracts(Bs); }
+                        if (overint) { r.fail("over-interpolation: B (" + std::to_string(t.pre_cycles) + " cycles) is symmetric but not positive definite for plain aggregation with over_interp > 1 on " + std::to_string(nl) + " levels: the single cycle is symmetric positive definite but not a contraction in the energy norm; the same input with over_interp = 1 is symmetric positive definite and contracts"); r.tag("over_interp_not_contracting"); }
+                        else r.fail("B is not positive definite");
+                    }
+                    else {
+                        if (!contracts(B)) {
+                            if (over1_ok()) { r.fail("over-interpolation: B is symmetric positive definite but the stationary iteration is not a contraction in the energy norm (A - E^T A E is not positive definite) for plain aggregation with over_interp > 1 on " + std::to_string(nl) + " levels; the same input with over_interp = 1 contracts"); r.tag("over_interp_not_contracting"); }
                             else r.fail("stationary iteration is not a contraction in the energy norm: A - E^T A E is not positive definite");
                         }
                         r.tag("spd-certified");
